@@ -481,6 +481,7 @@ pub struct Ctx {
     pub tier: Tier,
     /// where the shard writes its result (the hang witness goes next to it)
     pub out_path: Option<String>,
+    pub hang_guard: bool,
     pub seed: u64,
     pub shard: usize,
     pub nshards: usize,
@@ -505,6 +506,7 @@ impl Ctx {
             property: property.to_string(),
             tier,
             out_path: None,
+            hang_guard: false,
             seed,
             shard,
             nshards,
@@ -543,11 +545,44 @@ impl Ctx {
         mix(&[self.seed, mix_str(lane), self.shard as u64, i, mix_str(&self.property)])
     }
     pub fn begin_case(&mut self, case: Json) {
+        if self.hang_guard {
+            // the case in flight, for the hang watchdog (see `start_case_watchdog`)
+            let label = ["via", "what", "lane", "family", "scenario"]
+                .iter()
+                .filter_map(|k| case.str(k))
+                .collect::<Vec<_>>()
+                .join("/");
+            hang::arm(&label, case.dump().as_bytes());
+        }
         self.cur_case = case;
         self.cases += 1;
     }
+    /// Per-case hang guard for the behavioural monitors: a case (one history, one program, one cell) that is still
+    /// running after `limit_s` seconds is written out as a witness and the shard ends with exit code 86; the driver
+    /// replays the witness alone twice before it reports "does not return". (C14 arms per deserialize call instead.)
+    pub fn start_case_watchdog(&mut self, limit_s: u64) {
+        let out = match &self.out_path {
+            Some(p) => format!("{}.hang.json", p),
+            None => return,
+        };
+        let _ = std::fs::remove_file(&out);
+        let (property, profile) = (self.property.clone(), self.profile.clone());
+        self.hang_guard = true;
+        hang::start_watchdog(std::time::Duration::from_secs(limit_s), move |label, input, secs| {
+            let case = Json::parse(std::str::from_utf8(input).unwrap_or("{}")).unwrap_or(Json::obj()).set("profile", profile.as_str());
+            let j = Json::obj()
+                .set("property", property.as_str())
+                .set("signature", format!("{} | does not return | {}", property, label).as_str())
+                .set("message", format!("a case ({}) was still running after {} s", label, secs).as_str())
+                .set("case", case);
+            let _ = std::fs::write(&out, j.dump());
+        });
+    }
     /// Record the end of a case: its fingerprint counts towards distinct_nontrivial if nontrivial.
     pub fn end_case(&mut self, fingerprint: u64, nontrivial: bool) {
+        if self.hang_guard {
+            hang::disarm();
+        }
         if nontrivial {
             self.fingerprints.insert(fingerprint);
         }
